@@ -232,4 +232,46 @@ func ruleValCons(c *Ctx) {
 	c.check(rec["value.isTrueStr"] != "" && rec["value.isTrueStr"] == rec["value.boolean"], "recogniser:isTrueStr=boolean", token.NoPos,
 		"isTrueStr and boolean use the same whole-string recogniser ("+rec["value.boolean"]+")", "isTrueStr uses "+rec["value.isTrueStr"]+" but boolean uses "+rec["value.boolean"]+": a numeric-looking input string would be a number in comparisons and something else in truth tests")
 	c.check(rec["value.num"] == "parseFloatPrefix", "recogniser:num", token.NoPos, "num() uses the prefix parser", "num() does not use the prefix parser (uses "+rec["value.num"]+")")
+	// shape: in the numeric-string case of isTrueStr and boolean nothing is decided before the recogniser has been consulted
+	for _, fn := range []string{"value.isTrueStr", "value.boolean"} {
+		fd := c.funcDecl("interp", fn)
+		if fd == nil {
+			continue
+		}
+		ast.Inspect(fd.Body, func(n ast.Node) bool {
+			cc, ok := n.(*ast.CaseClause)
+			if !ok || len(cc.List) != 1 || constName(info, cc.List[0]) != "typeNumStr" {
+				return true
+			}
+			var callPos token.Pos
+			ast.Inspect(&ast.BlockStmt{List: cc.Body}, func(m ast.Node) bool {
+				if call, ok := m.(*ast.CallExpr); ok && isIdent(call.Fun, "parseFloat") && callPos == token.NoPos {
+					callPos = call.Pos()
+				}
+				return true
+			})
+			early := token.NoPos
+			ast.Inspect(&ast.BlockStmt{List: cc.Body}, func(m ast.Node) bool {
+				if r, ok := m.(*ast.ReturnStmt); ok && (callPos == token.NoPos || r.Pos() < callPos) {
+					early = r.Pos()
+				}
+				return true
+			})
+			c.check(callPos != token.NoPos && early == token.NoPos, "recogniser-shape:"+fn, cc.Pos(), fn+": every outcome for input-derived text is decided after parseFloat has classified it", fn+" decides the outcome for some input-derived text before (or without) consulting parseFloat: such text is classified differently by comparisons and by truth tests")
+			return false
+		})
+	}
+	// print's writer never converts with CONVFMT
+	if fd := c.funcDecl("interp", "interp.printArgs"); fd != nil {
+		bad := token.NoPos
+		ast.Inspect(fd.Body, func(n ast.Node) bool {
+			if call, ok := n.(*ast.CallExpr); ok {
+				if se, ok := call.Fun.(*ast.SelectorExpr); ok && se.Sel.Name == "toString" {
+					bad = call.Pos()
+				}
+			}
+			return true
+		})
+		c.check(bad == token.NoPos, "print-uses-ofmt", bad, "printArgs converts every argument with OFMT, in every output mode", "printArgs converts an argument with toString (CONVFMT): in that output mode `print` ignores OFMT")
+	}
 }
